@@ -34,13 +34,14 @@ type Event struct {
 
 // Conn is one accepted connection.
 type Conn struct {
-	Index int // 0 for the first connection accepted by the server
-	srv   *Server
-	raw   net.Conn
-	cur   net.Conn // raw or the TLS connection
-	hc    *holdConn
-	inTLS bool
-	start time.Time
+	glueNext string // appended to the next Send (Script.Glue)
+	Index    int    // 0 for the first connection accepted by the server
+	srv      *Server
+	raw      net.Conn
+	cur      net.Conn // raw or the TLS connection
+	hc       *holdConn
+	inTLS    bool
+	start    time.Time
 
 	mu         sync.Mutex
 	transcript []Event
@@ -253,6 +254,10 @@ func (c *Conn) Received() []Event {
 func (c *Conn) Send(s string) error {
 	c.wmu.Lock()
 	defer c.wmu.Unlock()
+	if c.glueNext != "" {
+		s += c.glueNext // leaves in the same write as the reply it follows
+		c.glueNext = ""
+	}
 	_ = c.cur.SetWriteDeadline(time.Now().Add(10 * time.Second))
 	_, err := io.WriteString(c.cur, s)
 	ev := Event{Dir: "sent", Kind: "bytes", Raw: s}
